@@ -10,6 +10,7 @@ package hfs
 // in-process (if alive) and after a restart from the directory left behind.
 
 import (
+	"sync/atomic"
 	"context"
 	"encoding/json"
 	"fmt"
@@ -85,6 +86,7 @@ type c08Case struct {
 }
 
 type c08Explorer struct {
+	nrec int64
 	r    *vlib.Run
 	seal *vlib.Pool
 	rec  *vlib.Pool
@@ -177,6 +179,32 @@ func (e *c08Explorer) recover(fs vcrash.FS, c c08Case, what string) {
 	}
 	if ok, bad := c08Judge(c.Ingest, res.Before); !ok {
 		e.r.Violation(fmt.Sprintf("%s: documents-not-served-after-restart %s kinds=%s", what, cfgs, statusKind(res.Before, c.Ingest)), c, desc+"\n"+bad)
+		return
+	}
+	// the same state again, but the first start is interrupted (cancelled context) before the store is started for good
+	if n := atomic.AddInt64(&e.nrec, 1); e.r.Thorough() || n%2 == 0 || e.r.Replay != "" {
+		d3 := vfrac.MkTmp("c08r")
+		defer os.RemoveAll(d3)
+		if err := fs.Materialize(d3); err != nil {
+			panic(err)
+		}
+		var r3 stageResult
+		j3, err := e.rec.Do(stageJob{Dir: d3, CancelFirst: true}, &r3, 120*time.Second)
+		if err != nil {
+			panic(err)
+		}
+		e.r.Add("evaluations", 1)
+		e.r.Add("recoveries_after_interrupted_start", 1)
+		switch {
+		case j3.Died || j3.Hung:
+			e.r.Violation(fmt.Sprintf("%s: store-does-not-come-back after an interrupted start %s cause=%s", what, cfgs, normCause(firstCause(j3.Stderr))), c, desc+"\n"+tailStr(j3.Stderr, 1500))
+		case r3.LoadErr != "":
+			e.r.Violation(fmt.Sprintf("%s: load-error after an interrupted start %s %s", what, cfgs, normCause(r3.LoadErr)), c, desc+"\n"+r3.LoadErr)
+		default:
+			if ok, bad := c08Judge(c.Ingest, r3.Before); !ok {
+				e.r.Violation(fmt.Sprintf("%s: documents-not-served after an interrupted start %s kinds=%s", what, cfgs, statusKind(r3.Before, c.Ingest)), c, desc+"\n"+bad)
+			}
+		}
 	}
 }
 
@@ -334,7 +362,7 @@ func TestVerifC08(t *testing.T) {
 	})
 	ev := r.Get("evaluations")
 	r.Finish(t, "fault_enumeration",
-		fmt.Sprintf("corpora %v (bulks of 1-3 documents; bulk 5 is token-heavy: its dictionary spans many 64-byte token blocks) x SkipSortDocs x KeepMetaFile, scaled block constants (4 IDs / 4 LIDs per block, 64-byte token blocks, 128-byte doc blocks): (1) every crash state of the journal of load+rotate+seal+release (Model A: every prefix and every torn length of every write; Model B: lost unsynced tails / overwrites), de-duplicated, recovered by the real loader in a child: every ingested document must be fetched byte-for-byte and found by each token; (2) every single fault kind:k for kind in write,sync,rename,create,seek,remove and k=1..count observed in the fault-free run: process death (fm.seal -> Fatal) => recover from the directory left behind; survival => documents served in-process and after restart. distinct_nontrivial = distinct crash states + injected faults", corpora),
+		fmt.Sprintf("corpora %v (bulks of 1-3 documents; bulk 5 is token-heavy: its dictionary spans many 64-byte token blocks) x SkipSortDocs x KeepMetaFile, scaled block constants (4 IDs / 4 LIDs per block, 64-byte token blocks, 128-byte doc blocks): (1) every crash state of the journal of load+rotate+seal+release (Model A: every prefix and every torn length of every write; Model B: lost unsynced tails / overwrites), de-duplicated, recovered by the real loader in a child: every ingested document must be fetched byte-for-byte and found by each token, also (every second state; thorough: every state) when the first start is interrupted by a cancelled context and the store is then started again; (2) every single fault kind:k for kind in write,sync,rename,create,seek,remove and k=1..count observed in the fault-free run: process death (fm.seal -> Fatal) => recover from the directory left behind; survival => documents served in-process and after restart. distinct_nontrivial = distinct crash states + injected faults", corpora),
 		map[string]any{
 			"states":                        r.DistinctCount("nontrivial"),
 			"transitions":                   ev,
